@@ -526,7 +526,9 @@ func callSSA(i *interpreter, caller *frame, callpos token.Pos, fn *ssa.Function,
 		if i.mode&EnableTracing != 0 {
 			fmt.Fprintln(os.Stderr, "\t(external)")
 		}
-		return info.ext(fr, args)
+		if r := info.ext(fr, args); r != (fallThrough{}) {
+			return r
+		}
 	}
 	if info.pkgInit && caller != nil {
 		return nil // dependencies are initialised lazily, on first use
